@@ -220,6 +220,7 @@ fn gen(t: &mut Tape, _tier: Tier) -> Scenario {
     let mut opts = OptSpec::default();
     let mut raw = RawSpec::default();
     let mut must_reject = false;
+    let mut inner_junk = 0u64;
     let payload_len;
     let mut input;
     match kind {
@@ -301,14 +302,33 @@ fn gen(t: &mut Tape, _tier: Tier) -> Scenario {
             sc.note = "marker-terminated .lzma".into();
         }
         _ => {
-            let plan = gen_xz_plan(t, 500);
-            let built = build_xz(&plan);
+            let mut plan = gen_xz_plan(t, 500);
+            let mut built = build_xz(&plan);
+            sc.note = "xz file".into();
+            // now and then the bytes that must not be there sit INSIDE a block: 1-4
+            // bytes after the LZMA2 end byte, covered by the block's stored compressed
+            // size and by its index record (every enclosing field consistent)
+            let nb = plan.blocks.len();
+            if nb > 0 && nb <= 8 && t.below(3) == 0 {
+                let bi = t.below(nb as u64) as usize;
+                let k = t.range(1, 4);
+                let fill = [0u8, 0xFF, t.byte(), 1][t.below(4) as usize];
+                for _ in 0..k {
+                    plan.blocks[bi].payload.push(fill);
+                }
+                plan.blocks[bi].has_csize = true;
+                let b2 = build_xz(&plan);
+                if crate::refmodel::container::ref_xz_decode(&b2.bytes).is_err() {
+                    built = b2;
+                    inner_junk = k;
+                    sc.note = format!("xz file with {} byte(s) 0x{:02x} after the LZMA2 end byte of block {}, inside its stored compressed size", k, fill, bi);
+                }
+            }
             input = built.bytes;
             payload_len = input.len();
             sc.set_i("ep", EP_XZ);
             sc.set_b("expect", built.content);
             must_reject = true;
-            sc.note = "xz file".into();
         }
     }
     let second = input.clone();
@@ -319,7 +339,7 @@ fn gen(t: &mut Tape, _tier: Tier) -> Scenario {
         trailing = second.clone();
         sc.set_i("chained", 1);
     }
-    if must_reject && trailing.is_empty() {
+    if must_reject && trailing.is_empty() && inner_junk == 0 {
         must_reject = false; // control: nothing after the end -> must succeed
     }
     sc.note.push_str(&format!(", trailing: {} ({} bytes){}", tn, trailing.len(), if chained { ", chained" } else { "" }));
@@ -448,6 +468,9 @@ fn exec(sc: &Scenario, ctx: &mut Ctx) -> Vec<Violation> {
     if trailing > 0 {
         ctx.stats.hit("probe.trailing_bytes_present");
     }
+    if sc.note.contains("after the LZMA2 end byte of block") {
+        ctx.stats.hit("probe.bytes_after_the_lzma2_end_inside_a_block");
+    }
     ctx.stats.eval(sc.hash() ^ ro.log, true, ro.calls + s.writes);
     if let Verdict::Panic(p) = &v {
         return vec![Violation::new("panic", &panic_locus(p), p.clone(), sc)];
@@ -516,7 +539,7 @@ fn exec(sc: &Scenario, ctx: &mut Ctx) -> Vec<Violation> {
 pub static C11: SimpleProp = SimpleProp {
     id: "C11",
     level: "exploration",
-    rule: "one evaluation = one decode of (valid size-bounded LZMA payload under each header option, raw LZMA, or LZMA2 stream) followed by trailing bytes (none / zeros / random / 0xFF / a second payload), through a slice, Cursor, real std BufReader (capacity 1..200 over short reads) or SimSource; reader position afterwards must equal header + encoder-emitted payload length; chained: two payloads decoded back to back from one reader; reused: 2-3 raw payloads decoded in place by ONE raw decoder with reset(None)/reset(Some(size))/reset(Some(None)) (or Lzma2Decoder::reset) between them, position and bytes checked after each; conversely marker-terminated .lzma and .xz with >= 1 trailing byte must fail; distinct by scenario hash, all non-trivial",
+    rule: "one evaluation = one decode of (valid size-bounded LZMA payload under each header option, raw LZMA, or LZMA2 stream) followed by trailing bytes (none / zeros / random / 0xFF / a second payload), through a slice, Cursor, real std BufReader (capacity 1..200 over short reads) or SimSource; reader position afterwards must equal header + encoder-emitted payload length; chained: two payloads decoded back to back from one reader; reused: 2-3 raw payloads decoded in place by ONE raw decoder with reset(None)/reset(Some(size))/reset(Some(None)) (or Lzma2Decoder::reset) between them, position and bytes checked after each; conversely marker-terminated .lzma and .xz with >= 1 trailing byte must fail, and so must an .xz file with 1-4 bytes after the LZMA2 end byte inside a block's stored compressed size (index consistent); distinct by scenario hash, all non-trivial",
     runs_quick: 200_000,
     runs_thorough: 24_000_000,
     both_profiles: false,
